@@ -271,6 +271,55 @@ pub fn check_path(bufs: &mut Bufs, p: &[u8]) -> CaseResult {
     Ok(rep)
 }
 
+/// `find_buf` and `match_up_to_str` take a plain byte / str operand, which - unlike a UnixStr - may hold NUL bytes
+/// anywhere. The haystack's own terminator is then something such an operand can "match", and a scan that trusts
+/// the terminator to stop it runs on behind the haystack (which here ends at an unmapped page).
+/// Definitions: a needle with a NUL that is not its last byte occurs in no haystack (None); for a needle whose
+/// only NUL is its last byte both readings of "the haystack" are accepted (contents only: None; contents plus
+/// terminator: the index where the rest of the needle ends the haystack). Common prefix: with either reading.
+pub fn check_nul_needle(bufs: &mut Bufs, h: &[u8], n: &[u8]) -> CaseResult {
+    let mut rep = CaseReport::new();
+    bufs.h.reset_at_end(&with_nul(h));
+    bufs.s.reset_at_end(n);
+    let hs = ustr(&bufs.h);
+    let nbuf: &[u8] = bufs.s.as_ref();
+    let first_nul = n.iter().position(|&c| c == 0);
+    let interior = matches!(first_nul, Some(i) if i + 1 < n.len());
+    let got = crate::runner::no_panic("UnixStr::find_buf", || hs.find_buf(nbuf))?;
+    let hz = with_nul(h);
+    let with_term = ref_find(&hz, n);
+    let acceptable: Vec<Option<usize>> = if interior || first_nul.is_none() { vec![ref_find(h, n)] } else { vec![None, with_term] };
+    ensure!(acceptable.contains(&got), format!("UnixStr::find_buf|wrong-index|needle with a NUL {}", if interior { "inside" } else { "at its end" }), "find_buf({:?},{:?}) = {:?}, acceptable {:?}", escape(h), escape(n), got, acceptable);
+    if let Ok(nstr) = core::str::from_utf8(nbuf) {
+        let got = crate::runner::no_panic("UnixStr::match_up_to_str", || hs.match_up_to_str(nstr))?;
+        let acc = [ref_common_prefix(h, n), ref_common_prefix(&hz, n)];
+        ensure!(acc.contains(&got), "UnixStr::match_up_to_str|wrong-length|operand with a NUL", "match_up_to_str({:?},{:?}) = {}, acceptable {:?}", escape(h), escape(n), got, acc);
+        rep.class_if(first_nul == Some(h.len()) && n.len() > h.len() + 1 && n.starts_with(h), "operand-continues-behind-the-haystack-terminator");
+    }
+    rep.nontrivial = first_nul.is_some();
+    rep.class_if(interior, "needle-with-a-NUL-inside");
+    rep.class_if(!interior && first_nul.is_some(), "needle-ending-in-NUL");
+    rep.class_if(first_nul.is_some() && n.len() <= h.len() + 1, "needle-no-longer-than-haystack-plus-terminator");
+    Ok(rep)
+}
+
+/// haystack (no NUL) and a needle built from it: a tail of the haystack, a NUL, and what could lie behind
+fn nul_needle_case() -> impl Strategy<Value = Pair> {
+    let byte = || prop_oneof![8 => prop::sample::select(ALPHA.to_vec()), 1 => 1u8..=255u8];
+    (prop::collection::vec(byte(), 0..24), any::<u16>(), prop::collection::vec(prop_oneof![6 => byte(), 1 => Just(0u8)], 0..6), 0u8..4).prop_map(|(h, at, behind, mode)| {
+        let k = crate::runner::pick_idx(at, h.len() + 1);
+        let mut n: Vec<u8> = match mode {
+            0 => h[k..].to_vec(),          // a tail of the haystack, then the NUL: "matches" the terminator
+            1 => h.clone(),                // the whole haystack (the common-prefix case)
+            2 => h[..k].to_vec(),          // a head of the haystack: the NUL meets an ordinary byte
+            _ => Vec::new(),
+        };
+        n.push(0);
+        n.extend_from_slice(&behind);
+        Pair { h: BStr(h), n: BStr(n) }
+    })
+}
+
 fn long_string() -> impl Strategy<Value = Vec<u8>> {
     // mostly the small alphabet (so planted needles also occur by chance), some other bytes
     prop::collection::vec(prop_oneof![8 => prop::sample::select(ALPHA.to_vec()), 1 => 1u8..=255u8], 0..2048)
@@ -408,6 +457,32 @@ pub fn run(ctx: &Ctx) {
 
     // (2) random long operands with planted matches
     ctx.run_prop("pair-rand", ctx.cases(3000, 100_000), pair_rand(), |c: &Pair| check_pair(&mut bufs.borrow_mut(), &c.h.0, &c.n.0));
+    if let Some(c) = ctx.replay_case::<Pair>("nul-needle-exh") {
+        ctx.run_one("nul-needle-exh", &c, || check_nul_needle(&mut bufs.borrow_mut(), &c.h.0, &c.n.0));
+    } else if !ctx.is_replay() {
+        // every haystack of length 0..=3 over {a, b} x every needle of length 1..=4 over {a, b, NUL} that holds a NUL
+        let hs = all_strings(&[b'a', b'b'], 3);
+        let ns: Vec<Vec<u8>> = all_strings(&[b'a', b'b', 0], 4).into_iter().filter(|n| n.contains(&0)).collect();
+        let mut ok = true;
+        let mut k = 0usize;
+        'nn: for h in &hs {
+            for n in &ns {
+                k += 1;
+                if k % ctx.nworkers as usize != ctx.worker as usize {
+                    continue;
+                }
+                let case = Pair { h: BStr(h.clone()), n: BStr(n.clone()) };
+                ok = ctx.run_one("nul-needle-exh", &case, || check_nul_needle(&mut bufs.borrow_mut(), h, n));
+                if !ok {
+                    break 'nn;
+                }
+            }
+        }
+        if ok {
+            ctx.note_exhaustive(format!("nul-needle-exh: {} haystacks (length 0..=3 over {{a,b}}) x {} byte/str operands of length 1..=4 over {{a,b,NUL}} holding a NUL", hs.len(), ns.len()));
+        }
+    }
+    ctx.run_prop("nul-needle", ctx.cases(3000, 100_000), nul_needle_case(), |c: &Pair| check_nul_needle(&mut bufs.borrow_mut(), &c.h.0, &c.n.0));
     ctx.run_prop("pair-prefix", ctx.cases(3000, 100_000), pair_prefix(), |c: &Pair| check_pair(&mut bufs.borrow_mut(), &c.h.0, &c.n.0));
     ctx.run_prop("path-rand", ctx.cases(2000, 60_000), path_rand(), |c: &PathCase| check_path(&mut bufs.borrow_mut(), &c.p.0));
 }
